@@ -9,6 +9,7 @@ from ..guards import sites
 from ..registry import describe, rule
 from ..util import calls_named, peel, returns_of
 from . import shared
+from .. import tmatch as tm
 
 LG = "pgmpy/models/LinearGaussianBayesianNetwork.py"
 GD = "pgmpy/factors/distributions/GaussianDistribution.py"
@@ -76,124 +77,182 @@ def submatrix(rc):
 def order(rc):
     repo = rc.repo
     f = repo.func(LG, "LinearGaussianBayesianNetwork.to_joint_gaussian")
-    d = _defs(f)
-    v = d.get("variables", [None])[0]
-    topo = v is not None and "topological_sort(self)" in norm(v)
-    idx = d.get("var_to_index", [None])[0]
-    okidx = idx is not None and norm(idx).replace(" ", "") == "{var:ifori,varinenumerate(variables)}"
-    rc.ob(f"to_joint_gaussian: variables = {norm(v) if v is not None else None}; index map from the same list: {okidx}")
+    fn = f.node
+    # templates: _X = any local name, __E = any expression
+    n, b = tm.find(fn, "_V = list(nx.topological_sort(self))")
+    topo = n is not None
+    V = b["_V"] if b else None
+    rc.ob(f"to_joint_gaussian: variable order `{V}` = topological sort: {topo}")
     if not topo:
-        rc.fail(f, f.node, "means must be computed parents-first (topological order)", construct="topological order")
-    if not okidx:
-        rc.fail(f, f.node, "the index map of mean/covariance must enumerate the same `variables` list", construct="index map")
-    # mean recursion
-    ms = [n for n in walk_no_nested(f.node) if isinstance(n, ast.Assign) and norm(n.targets[0]) == "mean[var]"]
-    okm = ms and "cpd.mean *" in norm(ms[0].value, 300) and "[1] + [mean[u] for u in cpd.evidence]" in norm(ms[0].value, 300) and ".sum()" in norm(ms[0].value, 300)
-    rc.ob(f"mean recursion: {norm(ms[0].value, 120) if ms else None}")
+        rc.fail(f, fn, "means must be computed parents-first (topological order)", construct="topological order")
+        return
+    n, bi = tm.find(fn, "_IDX = {_a: _i for _i, _a in enumerate(_V)}", {"_V": V})
+    if n is None:
+        rc.fail(f, fn, "the index map of mean/covariance must enumerate the same `variables` list", construct="index map")
+        return
+    IDX = bi["_IDX"]
+    okm = tm.has(fn, "_M[_x] = (_c.mean * np.array([1] + [_M[_u] for _u in _c.evidence])).sum()")
+    rc.ob(f"mean recursion intercept + sum coef_i * mean(parent_i) in the CPD's evidence order: {okm}")
     if not okm:
-        rc.fail(f, f.node, "mean(var) = intercept + sum coef_i * mean(parent_i), coefficients paired with parents in the CPD's evidence order (intercept first)", construct="mean recursion")
-    mv = [n for n in walk_no_nested(f.node) if isinstance(n, ast.Assign) and dotted(n.targets[0]) == "mean" and isinstance(n.value, ast.Call)]
-    if not any("for u in variables" in norm(n.value) for n in mv):
-        rc.fail(f, f.node, "the mean vector must follow the `variables` order", construct="mean vector order")
-    # B orientation
-    bs = [n for n in walk_no_nested(f.node) if isinstance(n, ast.Assign) and isinstance(n.targets[0], ast.Subscript) and dotted(n.targets[0].value) == "B"]
+        rc.fail(f, fn, "mean(var) = intercept + sum coef_i * mean(parent_i), coefficients paired with parents in the CPD's evidence order (intercept first)", construct="mean recursion")
+    if not tm.has(fn, "_M = np.array([_M[_u] for _u in _V])", {"_V": V}):
+        rc.fail(f, fn, "the mean vector must follow the `variables` order", construct="mean vector order")
+    pc = tm.find_all(fn, "_B[_IDX[_ev], _IDX[_var]] = __COEF", {"_IDX": IDX})
     orient = None
-    for n in bs:
-        sl = n.targets[0].slice
-        if isinstance(sl, ast.Tuple) and len(sl.elts) == 2:
-            r0, c0 = norm(sl.elts[0]), norm(sl.elts[1])
-            if r0 == "var_to_index[evidence_var]" and c0 == "var_to_index[var]":
-                orient = "parent,child"
-            elif r0 == "var_to_index[var]" and c0 == "var_to_index[evidence_var]":
-                orient = "child,parent"
-            coefok = norm(n.value) == "cpd.mean[i + 1]" and any(isinstance(p, ast.For) and norm(p.iter) == "enumerate(cpd.evidence)" for p in _parents(n))
-            if not coefok:
-                rc.fail(f, n, "B entry for the i-th parent must be coefficient i+1 of the CPD (0 is the intercept)", construct="B coefficient")
-    cov = d.get("implied_cov", [None])[0]
-    ct = norm(cov) if cov is not None else ""
-    rc.ob(f"B orientation [{orient}], implied covariance {ct}, inv = {norm(d.get('inv', [None])[0]) if d.get('inv') else None}")
-    want = {"parent,child": "inv.T @ omega @ inv", "child,parent": "inv @ omega @ inv.T"}.get(orient)
-    if want is None or ct != want:
-        rc.fail(f, cov if cov is not None else f.node, f"with B[{orient}] the implied covariance must be `{want}` (= (I-B)^-T Omega (I-B)^-1 for B[parent, child]); found `{ct}`",
-                construct="covariance orientation")
-    inv = d.get("inv", [None])[0]
-    if inv is None or norm(inv).replace(" ", "") not in ("np.linalg.inv(I-B)", "np.linalg.inv((I-B))"):
-        rc.fail(f, f.node, "inv must be (I - B)^-1", construct="inverse")
-    om = [n for n in walk_no_nested(f.node) if isinstance(n, ast.Assign) and isinstance(n.targets[0], ast.Subscript) and dotted(n.targets[0].value) == "omega"]
-    if not om or norm(om[0].targets[0].slice) != "(var_to_index[var], var_to_index[var])" or norm(om[0].value) != "cpd.variance":
-        rc.fail(f, f.node, "Omega must be diagonal with each node's own residual variance", construct="omega")
+    Bn = None
+    for n, b in pc:
+        # which of (_ev, _var) is the loop variable over cpd.evidence?
+        loops = [p for p in _parents(n) if isinstance(p, ast.For)]
+        ev_loop = None
+        for lp in loops:
+            bl = tm.is_(lp.target, "(_i, _e)")
+            if bl and tm.is_(lp.iter, "enumerate(_c.evidence)") is not None:
+                ev_loop = (bl["_i"], bl["_e"])
+        if ev_loop is None:
+            continue
+        Bn = b["_B"]
+        coef = b["__COEF"]
+        okc = tm.is_(coef, "_c.mean[_i + 1]", {"_i": ev_loop[0]}) is not None
+        if not okc:
+            rc.fail(f, n, "B entry for the i-th parent must be coefficient i+1 of the CPD (0 is the intercept)", construct="B coefficient")
+        orient = "parent,child" if b["_ev"] == ev_loop[1] else ("child,parent" if b["_var"] == ev_loop[1] else None)
+    if orient is None:
+        raise AnalysisError("to_joint_gaussian: cannot read the orientation of the coefficient matrix")
+    n, bo = tm.find(fn, "_OM[_IDX[_v], _IDX[_v]] = _c.variance", {"_IDX": IDX})
+    if n is None:
+        rc.fail(f, fn, "Omega must be diagonal with each node's own residual variance", construct="omega")
+        return
+    OM = bo["_OM"]
+    n, bv = tm.find(fn, "_INV = np.linalg.inv(_I - _B)", {"_B": Bn})
+    if n is None:
+        rc.fail(f, fn, "inv must be (I - B)^-1", construct="inverse")
+        return
+    INV = bv["_INV"]
+    fwd = tm.has(fn, "_C = _INV.T @ _OM @ _INV", {"_INV": INV, "_OM": OM})
+    rev = tm.has(fn, "_C = _INV @ _OM @ _INV.T", {"_INV": INV, "_OM": OM})
+    rc.ob(f"B orientation [{orient}]; implied covariance inv.T@omega@inv: {fwd}, inv@omega@inv.T: {rev}")
+    want_fwd = orient == "parent,child"
+    if (want_fwd and not fwd) or (not want_fwd and not rev):
+        rc.fail(f, fn, f"with B[{orient}] the implied covariance must be " + ("inv.T @ omega @ inv" if want_fwd else "inv @ omega @ inv.T") +
+                " (= (I-B)^-T Omega (I-B)^-1 for B[parent, child])", construct="covariance orientation")
     # predict
     p = repo.func(LG, "LinearGaussianBayesianNetwork.predict")
-    d = _defs(p)
-    vo = d.get("variable_order", [None])[0]
-    same_order = vo is not None and v is not None and norm(vo) == norm(v)
-    rc.ob(f"predict: variable_order = {norm(vo) if vo is not None else None} (same expression as to_joint_gaussian: {same_order})")
-    if not same_order:
-        rc.fail(p, p.node, "predict must index mean/cov with the same variable order that to_joint_gaussian used to build them", construct="predict order")
-    checks = {
-        "missing_indexes": "[variable_order.index(var) for var in missing_vars]",
-        "remain_vars": "[var for var in variable_order if var not in missing_vars]",
-        "mu_a": "mu[missing_indexes]",
-        "mu_b": "np.delete(mu, missing_indexes)",
-        "cov_bb": "np.delete(np.delete(cov, missing_indexes, axis=0), missing_indexes, axis=1)",
-        "cov_ab": "np.delete(cov[missing_indexes, :], missing_indexes, axis=1)",
-        "cov_bb_inv": "np.linalg.inv(cov_bb)",
-        "cov_cond": "cov_aa - cov_ab @ cov_bb_inv @ cov_ab.T",
-    }
-    alt = {"cov_bb": ["np.delete(np.delete(cov, missing_indexes, axis=1), missing_indexes, axis=0)"],
-           "cov_ab": ["np.delete(cov, missing_indexes, axis=1)[missing_indexes, :]", "np.delete(cov[missing_indexes], missing_indexes, axis=1)"]}
-    for name, want in checks.items():
-        if name not in d:
-            raise AnalysisError(f"predict: local `{name}` not found (the function was restructured; this rule compares named blocks and cannot decide)")
-        got = norm(d.get(name, [ast.Constant(value=None)])[0])
-        if got != want and got not in alt.get(name, []):
-            rc.fail(p, p.node, f"predict: `{name}` must be `{want}`; found `{got}`", construct=f"predict {name}")
-    caa = norm(d.get("cov_aa", [ast.Constant(value=None)])[0])
-    rc.ob(f"predict blocks: cov_aa = {caa}")
-    if caa not in ("cov[np.ix_(missing_indexes, missing_indexes)]", "cov[missing_indexes][:, missing_indexes]", "cov[missing_indexes, :][:, missing_indexes]"):
-        if "cov[missing_indexes, missing_indexes]" != caa:  # the paired form is reported by C20.submatrix
-            rc.fail(p, p.node, f"predict: cov_aa must be the missing x missing block of cov; found `{caa}`", construct="predict cov_aa")
-    mc = norm(d.get("mu_cond", [ast.Constant(value=None)])[0], 400).replace(" ", "")
-    okmc = "np.atleast_2d(mu_a)+" in mc and "cov_ab@cov_bb_inv@(data.loc[:,remain_vars].values-np.atleast_2d(mu_b)).T" in mc
+    pn = p.node
+    n, b = tm.find(pn, "_VO = list(nx.topological_sort(self))")
+    rc.ob(f"predict: variable order is the same topological sort: {n is not None}")
+    if n is None:
+        rc.fail(p, pn, "predict must index mean/cov with the same variable order that to_joint_gaussian used to build them", construct="predict order")
+        return
+    VO = b["_VO"]
+    n, b = tm.find(pn, "_MU, _COV = self.to_joint_gaussian()")
+    if n is None:
+        raise AnalysisError("predict: joint mean/covariance not obtained from to_joint_gaussian()")
+    MU, COV = b["_MU"], b["_COV"]
+    n, b = tm.find(pn, "_MI = [_VO.index(_v) for _v in _MV]", {"_VO": VO})
+    if n is None:
+        rc.fail(p, pn, "predict: the indices of the missing variables must be their positions in the variable order", construct="predict missing_indexes")
+        return
+    MI, MV = b["_MI"], b["_MV"]
+    n, b = tm.find(pn, "_RV = [_v for _v in _VO if _v not in _MV]", {"_VO": VO, "_MV": MV})
+    if n is None:
+        rc.fail(p, pn, "predict: the observed variables must keep the variable order", construct="predict remain_vars")
+        return
+    RV = b["_RV"]
+    base = {"_MU": MU, "_COV": COV, "_MI": MI}
+    n, b = tm.find(pn, "_MA = _MU[_MI]", base)
+    n2, b2 = tm.find(pn, "_MB = np.delete(_MU, _MI)", base)
+    if n is None or n2 is None:
+        rc.fail(p, pn, "predict: mu_a = mu[missing], mu_b = mu without the missing entries", construct="predict mu blocks")
+        return
+    MA, MB = b["_MA"], b2["_MB"]
+    caa = None
+    for t in ("_AA = _COV[np.ix_(_MI, _MI)]", "_AA = _COV[_MI][:, _MI]", "_AA = _COV[_MI, :][:, _MI]", "_AA = _COV[_MI, _MI]"):
+        n, b = tm.find(pn, t, base)
+        if n is not None:
+            caa = b["_AA"]
+            break
+    if caa is None:
+        rc.fail(p, pn, "predict: cov_aa must be the missing x missing block of cov", construct="predict cov_aa")
+        return
+    cbb = None
+    for t in ("_BB = np.delete(np.delete(_COV, _MI, axis=0), _MI, axis=1)", "_BB = np.delete(np.delete(_COV, _MI, axis=1), _MI, axis=0)"):
+        n, b = tm.find(pn, t, base)
+        if n is not None:
+            cbb = b["_BB"]
+    cab = None
+    for t in ("_AB = np.delete(_COV[_MI, :], _MI, axis=1)", "_AB = np.delete(_COV, _MI, axis=1)[_MI, :]", "_AB = np.delete(_COV[_MI], _MI, axis=1)"):
+        n, b = tm.find(pn, t, base)
+        if n is not None:
+            cab = b["_AB"]
+    rc.ob(f"predict blocks: aa={caa}, bb={cbb}, ab={cab}")
+    if cbb is None or cab is None:
+        rc.fail(p, pn, "predict: cov_bb = cov without missing rows AND columns; cov_ab = missing rows, observed columns", construct="predict cov blocks")
+        return
+    n, b = tm.find(pn, "_INVB = np.linalg.inv(_BB)", {"_BB": cbb})
+    if n is None:
+        rc.fail(p, pn, "predict: the observed block must be inverted", construct="predict cov_bb_inv")
+        return
+    IB_ = b["_INVB"]
+    if not tm.has(pn, "_CC = _AA - _AB @ _INVB @ _AB.T", {"_AA": caa, "_AB": cab, "_INVB": IB_}):
+        rc.fail(p, pn, "predict: conditional covariance = cov_aa - cov_ab cov_bb^-1 cov_ab^T", construct="predict cov_cond")
+    okmc = tm.has(pn, "_MC = np.atleast_2d(_MA) + (_AB @ _INVB @ (data.loc[:, _RV].values - np.atleast_2d(_MB)).T).T",
+                  {"_MA": MA, "_MB": MB, "_AB": cab, "_INVB": IB_, "_RV": RV})
     if not okmc:
-        rc.fail(p, p.node, "predict: conditional mean = mu_a + cov_ab cov_bb^-1 (x_b - mu_b) with the observed columns taken in the order of remain_vars", construct="predict mu_cond")
+        rc.fail(p, pn, "predict: conditional mean = mu_a + cov_ab cov_bb^-1 (x_b - mu_b) with the observed columns taken in the order of remain_vars", construct="predict mu_cond")
     r = returns_of(p)[-1].value
-    if not (isinstance(r, ast.Tuple) and norm(r.elts[0]) == "[variable_order[i] for i in missing_indexes]"):
-        rc.fail(p, p.node, "the returned variable names must follow the order of the returned mean/covariance (missing_indexes)", construct="predict names")
+    if not (isinstance(r, ast.Tuple) and tm.is_(r.elts[0], "[_VO[_i] for _i in _MI]", {"_VO": VO, "_MI": MI}) is not None):
+        rc.fail(p, pn, "the returned variable names must follow the order of the returned mean/covariance (missing_indexes)", construct="predict names")
     # simulate / fit
     s = repo.func(LG, "LinearGaussianBayesianNetwork.simulate")
-    ds = _defs(s)
-    if v is None or norm(ds.get("variables", [ast.Constant(value=None)])[0]) != norm(v) or "columns=variables" not in norm(s.node, 5000):
+    n, b = tm.find(s.node, "_V = list(nx.topological_sort(self))")
+    oks = n is not None and any(dotted(kwarg(c, "columns")) == b["_V"] for c in repo.calls_in(s) if call_name(c) == "DataFrame")
+    rc.ob(f"simulate labels columns with the topological order: {oks}")
+    if not oks:
         rc.fail(s, s.node, "simulate must label the columns with the order to_joint_gaussian used", construct="simulate columns")
-    rc.ob("simulate labels columns with the topological order")
     ft = repo.func(LG, "LinearGaussianBayesianNetwork.fit")
-    t = norm(ft.node, 100000)
-    okf = "LinearRegression().fit(data.loc[:, parents], data.loc[:, node])" in t and "evidence_mean=np.append([lm.intercept_], lm.coef_)" in t and "evidence=parents" in t \
-        and "lm.predict(data.loc[:, parents])" in t
-    rc.ob(f"fit: regressors, coefficient vector and evidence list share `parents`, intercept first: {okf}")
+    okf = False
+    for n, b in tm.find_all(ft.node, "_LM = LinearRegression().fit(data.loc[:, _P], data.loc[:, _N])"):
+        P = b["_P"]
+        c1 = any(tm.is_(kwarg(c, "evidence_mean"), "np.append([_LM.intercept_], _LM.coef_)", {"_LM": b["_LM"]}) is not None and dotted(kwarg(c, "evidence")) == P
+                 for c in repo.calls_in(ft) if call_name(c) == "LinearGaussianCPD")
+        c2 = tm.has(ft.node, "_LM.predict(data.loc[:, _P])", {"_LM": b["_LM"], "_P": P})
+        okf = c1 and c2 and tm.has(ft.node, "_P = self.get_parents(_N)", {"_P": P, "_N": b["_N"]})
+    rc.ob(f"fit: regressors, coefficient vector and evidence list share one parents list, intercept first: {okf}")
     if not okf:
         rc.fail(ft, ft.node, "fit must regress the node on its parents, store [intercept, coefficients...] and list the parents in the same order", construct="fit pairing")
     # Gaussian reduce / marginalize blocks
     g = repo.func(GD, "GaussianDistribution.reduce")
-    dg = _defs(g)
-    want = {"sig_i_j": "self.covariance[np.ix_(index_to_reduce, index_to_keep)]", "sig_j_i": "self.covariance[np.ix_(index_to_keep, index_to_reduce)]",
-            "sig_i_i_inv": "np.linalg.inv(self.covariance[np.ix_(index_to_reduce, index_to_reduce)])", "sig_j_j": "self.covariance[np.ix_(index_to_keep, index_to_keep)]",
-            "mu_j": "self.mean[index_to_keep]", "mu_i": "self.mean[index_to_reduce]"}
-    for k, w in want.items():
-        if k not in dg:
-            raise AnalysisError(f"GaussianDistribution.reduce: local `{k}` not found (restructured; cannot decide)")
-        got = norm(dg.get(k, [ast.Constant(value=None)])[0])
-        if got != w:
-            rc.fail(g, g.node, f"GaussianDistribution.reduce: `{k}` must be `{w}`; found `{got}`", construct=f"reduce {k}")
-    tg = norm(g.node, 100000)
-    if "phi.mean = mu_j + np.linalg.multi_dot([sig_j_i, sig_i_i_inv, x_i - mu_i])" not in tg or \
-            "phi.covariance = sig_j_j - np.linalg.multi_dot([sig_j_i, sig_i_i_inv, sig_i_j])" not in tg:
-        rc.fail(g, g.node, "GaussianDistribution.reduce: conditional mean/covariance formulas", construct="reduce formulas")
+    gn = g.node
+    n, b = tm.find(gn, "_K = [self.variables.index(_v) for _v in self.variables if _v not in _R]")
+    n2, b2 = tm.find(gn, "_RI = [self.variables.index(_v) for _v in _R]", {"_R": b["_R"]} if b else None)
+    if n is None or n2 is None:
+        raise AnalysisError("GaussianDistribution.reduce: index lists not found")
+    K, RI = b["_K"], b2["_RI"]
+    bb = {"_K": K, "_RI": RI}
+    blocks = {}
+    for role, t in (("ij", "_S = self.covariance[np.ix_(_RI, _K)]"), ("ji", "_S = self.covariance[np.ix_(_K, _RI)]"),
+                    ("ii_inv", "_S = np.linalg.inv(self.covariance[np.ix_(_RI, _RI)])"), ("jj", "_S = self.covariance[np.ix_(_K, _K)]"),
+                    ("mu_j", "_S = self.mean[_K]"), ("mu_i", "_S = self.mean[_RI]")):
+        n, b = tm.find(gn, t, bb)
+        if n is None:
+            rc.fail(g, gn, f"GaussianDistribution.reduce: block `{role}` must be `{t.split('= ')[1]}`", construct=f"reduce {role}")
+        else:
+            blocks[role] = b["_S"]
+    if len(blocks) == 6:
+        w = tm.find(gn, "_W = self if inplace else self.copy()")[1]
+        W = w["_W"] if w else "phi"
+        ok1 = tm.has(gn, "_W.mean = _MJ + np.linalg.multi_dot([_JI, _II, _X - _MI])", {"_W": W, "_MJ": blocks["mu_j"], "_JI": blocks["ji"], "_II": blocks["ii_inv"], "_MI": blocks["mu_i"]})
+        ok2 = tm.has(gn, "_W.covariance = _JJ - np.linalg.multi_dot([_JI, _II, _IJ])", {"_W": W, "_JJ": blocks["jj"], "_JI": blocks["ji"], "_II": blocks["ii_inv"], "_IJ": blocks["ij"]})
+        if not (ok1 and ok2):
+            rc.fail(g, gn, "GaussianDistribution.reduce: conditional mean/covariance formulas", construct="reduce formulas")
     rc.ob("GaussianDistribution.reduce: blocks and conditional formulas paired")
     m = repo.func(GD, "GaussianDistribution.marginalize")
-    tm = norm(m.node, 100000)
-    if "phi.covariance = phi.covariance[np.ix_(index_to_keep, index_to_keep)]" not in tm or "phi.mean = phi.mean[index_to_keep]" not in tm or \
-            "phi.variables = [phi.variables[index] for index in index_to_keep]" not in tm:
+    n, b = tm.find(m.node, "_W.covariance = _W.covariance[np.ix_(_K, _K)]")
+    okg = n is not None and tm.has(m.node, "_W.mean = _W.mean[_K]", b) and tm.has(m.node, "_W.variables = [_W.variables[_i] for _i in _K]", b)
+    if n is None:
+        n, b = tm.find(m.node, "_W.covariance = _W.covariance[_K, _K]")  # reported by C20.submatrix
+        okg = n is not None and tm.has(m.node, "_W.mean = _W.mean[_K]", b) and tm.has(m.node, "_W.variables = [_W.variables[_i] for _i in _K]", b)
+    if not okg:
         rc.fail(m, m.node, "GaussianDistribution.marginalize must keep the same index list for variables, mean and covariance block", construct="marginalize blocks")
     rc.ob("GaussianDistribution.marginalize: one index list for variables, mean, covariance")
 
